@@ -247,11 +247,22 @@ class FakeOS:
     def scandir(self, p):
         self.w.fault('scandir')
         s = str(p) + '/'
+        if str(p) not in self.w.dirs:
+            raise FileNotFoundError(str(p))
         out = []
         for f in sorted(self.w.files):
             if f.startswith(s) and '/' not in f[len(s):]:
                 out.append(_DirEntry(self.w, f))
+        for d in sorted(self.w.dirs):
+            if d.startswith(s) and '/' not in d[len(s):]:
+                out.append(_DirEntry(self.w, d, True))
         return out
+
+    def isdir(self, p):
+        return str(p) in self.w.dirs
+
+    def exists(self, p):
+        return str(p) in self.w.dirs or str(p) in self.w.files
 
     def remove(self, p):
         if not isinstance(p, (str, bytes)) and not hasattr(p, '__fspath__'):
@@ -282,12 +293,21 @@ class _Stat:
 
 
 class _DirEntry:
-    def __init__(self, w, path):
+    def __init__(self, w, path, isdir=False):
         self.w, self.path = w, path
         self.name = path.rsplit('/', 1)[1]
+        self._isdir = isdir
+
+    def is_dir(self):
+        return self._isdir
+
+    def is_file(self):
+        return not self._isdir
 
     def stat(self):
         self.w.fault('stat')
+        if self._isdir:
+            return _Stat(Entry(None, 0, self.w.clock))
         if self.path not in self.w.files:
             raise FileNotFoundError(self.path)
         return _Stat(self.w.files[self.path])
@@ -404,6 +424,9 @@ class Installed:
         C.open = make_open(self.w)
         C.pickle = FakePickle(self.w)
         C.time = FakeTime(self.w)
+        import parso.grammar as _G
+        self.gtime = _G.__dict__.get('time', _MISSING)
+        _G.time = FakeTime(self.w)
         if self.size_trigger is not None:
             C._CACHED_SIZE_TRIGGER = self.size_trigger
         self.cache_saved = dict(C.parser_cache)
@@ -426,6 +449,11 @@ class Installed:
                 C.__dict__[k] = v
         C.parser_cache.clear()
         C.parser_cache.update(self.cache_saved)
+        import parso.grammar as _G
+        if self.gtime is _MISSING:
+            _G.__dict__.pop('time', None)
+        else:
+            _G.time = self.gtime
         return False
 
 
@@ -794,12 +822,15 @@ def op_fault(prim: int, kind: int, mode: int, has_pkl: bool, pkl_cur: bool, lock
     w.use_default_path = default_path
     w.src[FILES[0]] = [2, 500]
     with Installed(w):
+        if PRIMS[prim] == 'makedirs':
+            has_pkl = False            # the version directory does not exist yet and cannot be created
+        else:
+            # another module's pickle so that clean-up has something to look at
+            w.dirs.update(['/cache0', '/cache0/%s' % C._VERSION_TAG])
+            w.files['/cache0/%s/other.pkl' % C._VERSION_TAG] = Entry(_item(0, FILES[1], 1, 0, 0), 0, 0)
+            w.files['/cache0/PARSO-CACHE-LOCK'] = Entry(None, 0 if lock_old else now, 0 if lock_old else now)
         _mk_state(w, False, 1, 0, 0, has_pkl, 2 if pkl_cur else 1, 1000 if pkl_cur else 100, 0, 0, 0)
-        # another module's pickle so that clean-up has something to look at
-        w.dirs.update(['/cache0', '/cache0/%s' % C._VERSION_TAG])
-        w.files['/cache0/%s/other.pkl' % C._VERSION_TAG] = Entry(_item(0, FILES[1], 1, 0, 0), 0, 0)
         w.src[FILES[1]] = [1, 0]
-        w.files['/cache0/PARSO-CACHE-LOCK'] = Entry(None, 0 if lock_old else now, 0 if lock_old else now)
         w.faults[PRIMS[prim]] = OS_KINDS[kind]
         if not _parse_quiet(w, 0, 0, 0, mode):
             return False
